@@ -165,6 +165,7 @@ KOf(fam) ==
                 "digamma.rec", "gammad1.half", "besseli.bigx"} -> 128
     [] fam \in {"logbesseli.half", "logbesseli.log", "gamma.rec", "gamma.refl", "gamma.dup", "lgamma.rec"} -> 256
     [] fam \in {"gammap.d1", "gammap.lowerp", "gammap.upperq"} -> 1024
+    [] fam \in {"logbesseli.negseries", "logbesseli.rec2", "logbesseli.series", "besseli.series"} -> 256
     [] OTHER -> 64
 
 (* ---------------------------------------------------------------- Factorial *)
@@ -488,7 +489,12 @@ GD2(a, x) == Lib("GammaPsecondDerivative", <<a, x>>)
 (* sum_{k=0}^{n-1} x^k / k!  in Horner form *)
 RECURSIVE ExpHorner(_, _, _)
 ExpHorner(x, k, n) == IF k >= n THEN One ELSE AddR(One, MulR(DivR(x, QI(k)), ExpHorner(x, k + 1, n)))
-ExpSumT(n, x) == ExpHorner(x, 1, n)
+(* beyond 60 terms: blocks of 50 terms, each a Horner chain relative to its first term (bounded recursion depth) *)
+RECURSIVE ChunkHorner(_, _, _)
+ChunkHorner(x, k, hi) == IF k > hi THEN One ELSE AddR(One, MulR(DivR(x, QI(k)), ChunkHorner(x, k + 1, hi)))
+ExpSumBlock(n, x, j) == LET b == 50 * j  hi == IF b + 49 < n - 1 THEN b + 49 ELSE n - 1
+                        IN MulR(DivR(PowR(x, QI(b)), FactT(b)), ChunkHorner(x, b + 1, hi))
+ExpSumT(n, x) == IF n <= 60 THEN ExpHorner(x, 1, n) ELSE SumR([jj \in 1..(((n - 1) \div 50) + 1) |-> ExpSumBlock(n, x, jj - 1)])
 EmX == Exp(Neg(X1))
 GIntAs == <<1, 2, 3, 5, 10, 20, 21, 29, 30, 31, 40>>
 (* P, Q, lower, upper, P', P'' for integer a as schemas in x *)
@@ -845,9 +851,154 @@ ClassList == <<
 >>
 ClassCase(k) == LET c == ClassList[k] IN ClassRec(c.fam, <<>>, c.fn, c.args, c.want)
 
+(* ======================================================================= *)
+(* EXTREME MAGNITUDES: points where an INTERMEDIATE quantity of the          *)
+(* implementation under- or overflows although the result is an ordinary     *)
+(* number (every log-domain fallback of the code has points on both sides).  *)
+(* ======================================================================= *)
+
+(* ---- derivatives of P at tiny x = 2^-k: P'(a, x) = x^(a-1) e^-x / Gamma(a), a > 1 integer or half-integer.       *)
+(* implementation: prefix x^a e^-x / Gamma(a) divided by x; if the prefix underflows to 0 the quotient is formed in  *)
+(* logarithms.  zone of a point (2 a k is the binary exponent of 1 / x^(2a), exact):                                 *)
+(*   "normal"  prefix >= 2^-990 : ordinary path        "deep"  prefix < 2^-1140 : logarithmic fallback              *)
+(*   "band"    2^-1075 .. 2^-1022: the prefix is a SUBNORMAL number.  KNOWN DEVIATION denormal-prefix: the result is *)
+(*             allowed the absolute error 2^-1050 / x there (docs/C13-extra-fix-1.diff repairs it).                  *)
+GammaAny2T(a2) == IF a2 % 2 = 0 THEN FactT(a2 \div 2 - 1) ELSE GammaHalfT((a2 - 1) \div 2)      \* Gamma(a2 / 2)
+TinyList == << <<3, 640>>, <<3, 700>>, <<3, 800>>, <<3, 1000>>, <<4, 480>>, <<4, 520>>, <<4, 600>>, <<4, 1000>>,
+               <<5, 390>>, <<5, 420>>, <<5, 480>>, <<5, 680>>, <<6, 320>>, <<6, 350>>, <<6, 400>>, <<6, 500>>,
+               <<10, 190>>, <<10, 210>>, <<10, 240>>, <<21, 92>>, <<21, 100>>, <<21, 112>> >>        \* <<2a, k>>
+TinyZone(a2, k) == IF a2 * k <= 2 * 990 THEN "normal" ELSE IF a2 * k >= 2 * 1140 THEN "deep" ELSE "band"
+TinyD1T(a2, k) == DivR(MulR(PowR(P2(0 - k), QF(a2 - 2, 2)), Exp(Neg(P2(0 - k)))), GammaAny2T(a2))
+(* conditioning of x^(a-1) e^-x / Gamma(a) in a: a |log x| *)
+TinyCond(a2, k) == AddR(One, MulR(QF(a2 * k, 2), Log(Two)))
+GammaD1Tiny(a2, k) ==
+  LET c == EqRec("gammad1.tiny", KOf("gammad1.tiny"), <<R(a2, 2), RInt(0 - k)>>, GD1(QF(a2, 2), P2(0 - k)), TinyD1T(a2, k),
+                 MulR(TinyD1T(a2, k), TinyCond(a2, k)), Zero, TinyZone(a2, k))
+  IN IF TinyZone(a2, k) = "band" THEN c @@ [devid |-> "denormal-prefix", dev |-> P2(k - 1050)] ELSE c
+(* P''(a, x) = P'(a, x) ((a-1)/x - 1).  implementation: (a-1) t / x - t from the first derivative t.                  *)
+(* KNOWN DEVIATION d2-from-lost-d1: where t itself is below 2^-1022 (or in the band above) the second derivative is  *)
+(* allowed the absolute error (a-1) 2^-1050 / x^2 (docs/C13-extra-fix-1.diff repairs it).                              *)
+TinyList2 == TinyList \o << <<6, 540>>, <<10, 270>> >>
+TinyD2T(a2, k) == MulR(TinyD1T(a2, k), SubR(MulR(QF(a2 - 2, 2), P2(k)), One))
+D1Lost(a2, k) == TinyZone(a2, k) = "band" \/ (a2 - 2) * k >= 2 * 1022
+GammaD2Tiny(a2, k) ==
+  LET c == EqRec("gammad2.tiny", KOf("gammad2.tiny"), <<R(a2, 2), RInt(0 - k)>>, GD2(QF(a2, 2), P2(0 - k)), TinyD2T(a2, k),
+                 MulR(TinyD2T(a2, k), TinyCond(a2, k)), Zero, IF D1Lost(a2, k) THEN "first derivative lost" ELSE TinyZone(a2, k))
+  IN IF D1Lost(a2, k) THEN c @@ [devid |-> "d2-from-lost-d1", dev |-> MulR(QF(a2 - 2, 2), P2(2 * k - 1050))] ELSE c
+
+(* ---- full incomplete gamma for a >= 170 (Gamma(a) overflows or nearly): logarithmic forms of the implementation   *)
+(* upper: Gamma(a, x) = (a-1)! e^-x sum_{k<a} x^k/k!;  branches: 4a < x continued fraction in logs / regularised Q + lgamma *)
+UpperBigList == << <<170, 1>>, <<171, 1>>, <<170, 100>>, <<171, 700>>, <<172, 700>>, <<172, 400>>, <<180, 730>>, <<200, 900>> >>
+GammaUpperBig(a, x) == LET t == MulR(FactT(a - 1), MulR(Exp(Neg(QI(x))), ExpSumT(a, QI(x)))) IN
+  EqRec("gammaupper.big", KOf("gammaupper.big"), <<RInt(a), RInt(x)>>, GUL(QI(a), QI(x)), t,
+        MulR(t, AddR(AddR(One, QI(RAbs(a - 1 - x))), MulR(QI(a), Abs(Log(QF(x, a)))))), Zero, IF 4 * a < x THEN "fraction in logs" ELSE "Q and lgamma")
+(* lower: gamma(a, x) = x^a e^-x / a * sum_{k>=0} x^k / ((a+1)...(a+k)), tail after M terms below t_M x/(a+M+1) / (1 - x/(a+M+1)) *)
+LowerM == 80
+RECURSIVE LowerHorner(_, _, _)
+LowerHorner(a, x, k) == IF k > LowerM THEN One ELSE AddR(One, MulR(QF(x, a + k), LowerHorner(a, x, k + 1)))
+LowerBigList == << <<170, 1>>, <<171, 1>>, <<170, 10>>, <<171, 40>>, <<200, 1>>, <<200, 40>>, <<400, 40>>, <<170, 100>> >>
+GammaLowerBig(a, x) == LET pre == DivR(MulR(PowR(QI(x), QI(a)), Exp(Neg(QI(x)))), QI(a))
+                           t   == MulR(pre, LowerHorner(a, x, 1)) IN
+  EqRec("gammalower.big", KOf("gammalower.big"), <<RInt(a), RInt(x)>>, GLL(QI(a), QI(x)), t,
+        MulR(t, AddR(AddR(One, QI(RAbs(a - 1 - x))), MulR(QI(a), Abs(Log(QF(x, a)))))),
+        MulR(MulR(pre, Two), PowR(QF(x, a + LowerM), QI(LowerM))), IF a > 4 * x THEN "series in logs" ELSE "P and lgamma")
+(* P'(a, x) for large integer a: a log(x/a) or a - x beyond the exponent range of exp *)
+D1BigList == << <<400, 100>>, <<1000, 500>>, <<1000, 1200>>, <<2000, 1000>>, <<2000, 1500>> >>
+GammaD1Big(a, x) == LET t == DivR(MulR(PowR(QI(x), QI(a - 1)), Exp(Neg(QI(x)))), FactT(a - 1)) IN
+  EqRec("gammad1.big", KOf("gammad1.big"), <<RInt(a), RInt(x)>>, GD1(QI(a), QI(x)), t,
+        MulR(t, AddR(AddR(One, QI(RAbs(a - 1 - x))), MulR(QI(a), Abs(Log(QF(x, a)))))), Zero, "large a")
+
+(* ---- BesselI / LogBesselI at large half-integer order v = n + 1/2 by the power series                            *)
+(*   I_v(x) = (x/2)^v / Gamma(v+1) sum_k (x^2/4)^k / (k! (v+1)_k); the terms decrease by more than 1/2 beyond M    *)
+(* implementation: v >= 170 prefix in logarithms; x/v < 1/4 series, otherwise CF1 + Wronskian with rescaled K        *)
+SerM == 100
+RECURSIVE SerHorner(_, _, _)
+SerHorner(y, n, k) == IF k > SerM THEN One ELSE AddR(One, MulR(DivR(y, MulR(QI(k), QF(2 * n + 1 + 2 * k, 2))), SerHorner(y, n, k + 1)))
+BesSerT(n, x) == LET y == Q(RDiv(RMul(x, x), RInt(4))) IN
+  MulR(DivR(PowR(Q(RDiv(x, RInt(2))), QF(2 * n + 1, 2)), GammaHalfT(n + 1)), SerHorner(y, n, 1))
+(* relative tail bound: 2 (y^(M+1) / ((M+1)! (v+1)_(M+1))) <= 2 (y / ((M+1)(v+M+1)))^(M+1) * ... : use the crude y^M/(M!)^2 bound *)
+BesSerTail(n, x) == LET y == Q(RDiv(RMul(x, x), RInt(4))) IN MulR(Two, DivR(PowR(y, QI(SerM + 1)), MulR(FactT(SerM + 1), PowR(QI(n), QI(SerM + 1)))))
+BesSerList == << <<100, RInt(1)>>, <<100, RInt(20)>>, <<168, RInt(10)>>, <<169, RInt(10)>>, <<170, RInt(40)>>, <<200, RInt(10)>>, <<200, RInt(49)>>,
+                 <<200, RInt(51)>>, <<300, RInt(60)>> >>
+LogBesSerList == BesSerList \o << <<1000, RInt(100)>>, <<1000, RInt(240)>>, <<1000, RInt(260)>>, <<1000, Dy(1, 4)>> >>
+BesSerBr(n, x) == IF RLt(RMul(x, RInt(4)), R(2 * n + 1, 2)) THEN (IF n >= 170 THEN "series, log prefix" ELSE "series") ELSE "CF1 + Wronskian"
+BesSer(n, x) == EqRec("besseli.series", KOf("besseli.series"), <<R(2 * n + 1, 2), x>>, BIL(QF(2 * n + 1, 2), Q(x)), BesSerT(n, x),
+                      MulR(BesSerT(n, x), AddR(One, MulR(QF(2 * n + 1, 2), Abs(Log(DivR(Q(x), QI(2 * n + 1))))))), MulR(BesSerT(n, x), BesSerTail(n, x)), BesSerBr(n, x))
+LogBesSer(n, x) == EqRec("logbesseli.series", KOf("logbesseli.series"), <<R(2 * n + 1, 2), x>>, LBIL(QF(2 * n + 1, 2), Q(x)), Log(BesSerT(n, x)),
+                         AddR(Abs(Log(BesSerT(n, x))), One), BesSerTail(n, x), BesSerBr(n, x))
+
+(* ---- LogBesselI at negative non-integer order of large magnitude and small x (where BesselI overflows):           *)
+(*   I_{-m}(x) = (x/2)^-m / Gamma(1-m) sum_k (x^2/4)^k / (k! (1-m)_k),   1/Gamma(1-m) = Gamma(m) sin(pi m) / pi          *)
+(* for x <= 1, m >= 20, distance of m to the integers >= 1/16 every term ratio is below 1/4: tail <= 2 |t_(M+1)|       *)
+(* implementation: reflection I_v + (2/pi) sin(pi v) K_v with K_v from the forward recurrence, RESCALED whenever it   *)
+(* would exceed e^709 (the rescaling must be undone in the reflection term).  Gamma(m) through the library (Mlgamma).  *)
+NegM == 12
+RECURSIVE NegTerm(_, _, _)
+NegTerm(m, y, k) == IF k = 0 THEN One ELSE MulR(NegTerm(m, y, k - 1), DivR(y, MulR(QI(k), SubR(QI(k), m))))
+NegSum(m, y) == SumR([kk \in 1..(NegM + 1) |-> NegTerm(m, y, kk - 1)])
+LogBesNegS == LET m == X1  x == X2  y == DivR(MulR(x, x), QI(4))
+                  t == AddR(AddR(AddR(Neg(MulR(m, Log(DivR(x, Two)))), LgamL(m)), Log(DivR(Sin(MulR(Pi, m)), Pi))), Log(NegSum(m, y)))
+              IN SchemaRec("logbesseli.negseries", KOf("logbesseli.negseries"), 2, LBIL(Neg(m), x), t,
+                           AddR(AddR(Abs(MulR(m, Log(DivR(x, Two)))), Abs(LgamL(m))), One),
+                           DivR(MulR(Two, Abs(NegTerm(m, y, NegM + 1))), Abs(NegSum(m, y))),
+                           << <<Rg(RInt(20), RInt(400), 4), Rg(Dy(1, 6), RInt(1), 8)>> >>,
+                           <<SubR(Sin(MulR(Pi, m)), QF(1, 5))>>)
+NegMus == <<Dy(41, 1), Dy(81, 2), Dy(83, 2), Dy(101, 1), Dy(201, 1), Dy(403, 2), Dy(807, 3), Dy(321, 1), Dy(641, 2), Dy(601, 1), Dy(1603, 2), Dy(2001, 1)>>
+NegXs  == <<Dy(1, 6), Dy(3, 6), Dy(1, 4), Dy(5, 6), Dy(1, 3), Dy(1, 1), RInt(1)>>
+NegPointAt(k) == <<NegMus[((k - 1) \div Len(NegXs)) + 1], NegXs[((k - 1) % Len(NegXs)) + 1]>>
+NegCount == Len(NegMus) * Len(NegXs)
+(* recurrence over two steps, so that the three orders have the same sign of sin(pi v):                              *)
+(*   x/(2(v-1)) (I_{v-2} - I_v) - x/(2(v+1)) (I_v - I_{v+2}) = (2v/x) I_v,  divided by I_v, v = -m                      *)
+LogBesRec2S == LET v == Neg(X1)  x == X2
+                   lm == LBIL(SubR(v, Two), x)  l0 == LBIL(v, x)  lp == LBIL(AddR(v, Two), x)
+                   rm == Exp(SubR(lm, l0))  rp == Exp(SubR(lp, l0))
+                   cm == DivR(x, MulR(Two, SubR(v, One)))  cp == DivR(x, MulR(Two, AddR(v, One)))
+               IN SchemaRec("logbesseli.rec2", KOf("logbesseli.rec2"), 2,
+                            SubR(MulR(cm, SubR(rm, One)), MulR(cp, SubR(One, rp))), DivR(MulR(Two, v), x),
+                            AddR(MulR(Abs(MulR(cm, rm)), AddR(One, Mag2(lm, l0))), AddR(MulR(Abs(MulR(cp, rp)), AddR(One, Mag2(lp, l0))), Mag2(cm, cp))), Zero,
+                            << <<Rg(RInt(22), RInt(400), 4), Rg(Dy(1, 6), RInt(1), 8)>> >>,
+                            <<SubR(Sin(MulR(Pi, X1)), QF(1, 5))>>)
+
+(* ======================================================================= *)
+(* PURITY: the value of a special function is a function of its arguments    *)
+(* only - no hidden state (lazily built tables), no dependence on the order  *)
+(* of first use, no data race (model: SpecialPure.tla).  A pure family is a  *)
+(* list of calls; the driver evaluates it in fresh processes sequentially    *)
+(* (forward and backward) and concurrently and requires identical bits.      *)
+(* ======================================================================= *)
+Call(fn, args) == [fn |-> fn, args |-> args]
+CrossCalls(fn, firsts, seconds) ==
+  [j \in 1..(Len(firsts) * Len(seconds)) |-> Call(fn, <<firsts[((j - 1) \div Len(seconds)) + 1], seconds[((j - 1) % Len(seconds)) + 1]>>)]
+UnaryCalls(fn, xs) == [j \in 1..Len(xs) |-> Call(fn, <<xs[j]>>)]
+QIs(ns) == [j \in 1..Len(ns) |-> QI(ns[j])]
+PureFamilies == <<
+  [fam |-> "pure.polygamma.reflection",
+   calls |-> CrossCalls("Polygamma", QIs(<<2, 5, 20, 21, 22, 25, 30, 43, 50, 64, 23, 10>>), <<QF(-5, 16), QF(-5, 4), QF(-11, 4)>>)],
+  [fam |-> "pure.polygamma.positive",
+   calls |-> CrossCalls("Polygamma", QIs(<<0, 1, 2, 3, 6, 21, 30>>), <<QF(1, 8), One, QF(5, 2), QI(40), QI(200)>>)],
+  [fam |-> "pure.zeta",
+   calls |-> UnaryCalls("Zeta", <<QI(3), QI(5), QI(51), QI(101), QI(103), QI(105), QI(-3), QI(-31), Half, QF(5, 2), QI(20), QF(-5, 2), QI(4)>>)],
+  [fam |-> "pure.bernoulli.factorial",
+   calls |-> UnaryCalls("BernoulliNumber", QIs(<<0, 1, 2, 3, 10, 20, 30, 60>>)) \o UnaryCalls("Factorial", QIs(<<0, 5, 20, 21, 25, 170>>))],
+  [fam |-> "pure.digamma.trigamma",
+   calls |-> UnaryCalls("Digamma", <<QF(1, 8), One, QF(3, 2), QI(12), QF(-5, 2)>>) \o UnaryCalls("Trigamma", <<QF(1, 8), One, QF(5, 2), QI(12), QF(-5, 2)>>)],
+  [fam |-> "pure.gamma.incomplete",
+   calls |-> CrossCalls("GammaP", <<Half, Two, QI(25), QF(61, 2), QI(250)>>, <<QF(1, 4), QI(3), QI(24), QI(260)>>) \o
+             CrossCalls("GammaUpper", <<Half, QI(30), QI(171)>>, <<One, QI(40)>>) \o
+             CrossCalls("GammaPsecondDerivative", <<QF(3, 2), QI(5)>>, <<One, QI(7)>>)],
+  [fam |-> "pure.bessel",
+   calls |-> CrossCalls("BesselI", <<Zero, One, Half, QF(5, 2), QF(-5, 2), QI(8), QI(50)>>, <<QF(1, 4), Two, QI(8), QI(100)>>) \o
+             CrossCalls("LogBesselI", <<Zero, QF(5, 2), QF(-201, 2), QI(8)>>, <<QF(1, 16), QI(8), QI(7000)>>)],
+  [fam |-> "pure.log",
+   calls |-> UnaryCalls("LogErfc", <<QF(1, 16), One, QI(9), QI(-3)>>) \o
+             CrossCalls("LogAdd", <<Zero, QI(-700)>>, <<One, NInf>>) \o CrossCalls("LogSub", <<Two>>, <<One, NInf>>) \o
+             CrossCalls("Mlgamma", <<QF(5, 2), QI(30)>>, <<One, QI(3)>>)]
+>>
+PureCase(k) == [kind |-> "pure", fam |-> PureFamilies[k].fam, calls |-> PureFamilies[k].calls]
+
 (* ================================================================ catalogue *)
 (* identity families: blocks of (tag, number of parameter values); everything is looked up lazily *)
-Blocks == << <<"fixed", 30>>, <<"polyrec", Len(PolyNs)>>, <<"polyrefl", Len(PolyNs)>>, <<"polydup", Len(PolyNs)>>,
+Blocks == << <<"fixed", 32>>, <<"polyrec", Len(PolyNs)>>, <<"polyrefl", Len(PolyNs)>>, <<"polydup", Len(PolyNs)>>,
              <<"mlgsum", 3>>, <<"mgammalog", 3>>,
              <<"gint.p", Len(GIntAs)>>, <<"gint.q", Len(GIntAs)>>, <<"gint.lower", Len(GIntAs)>>, <<"gint.upper", Len(GIntAs)>>,
              <<"gint.d1", Len(GIntAs)>>, <<"gint.d2", Len(GIntAs)>>,
@@ -870,6 +1021,7 @@ FixedSchema(a) ==
     [] a = 21 -> LogErfcSmallS [] a = 22 -> LogErfcMidS
     [] a = 23 -> BesRecS      [] a = 24 -> LogBesLogS   [] a = 25 -> LogBesRecS [] a = 26 -> BesNegIntS
     [] a = 27 -> LogAddLinS   [] a = 28 -> LogSubLinS   [] a = 29 -> LogAddRatS [] a = 30 -> LogSubRatS
+    [] a = 31 -> LogBesNegS   [] a = 32 -> LogBesRec2S
 FixedPoints(a) ==
   CASE a = 1 -> DigammaRecP   [] a = 2 -> DigammaReflP  [] a = 3 -> DigammaDupP
     [] a = 4 -> TrigammaRecP  [] a = 5 -> TrigammaReflP [] a = 6 -> TrigammaDupP
@@ -915,12 +1067,14 @@ PointCount(tag, a) ==
   ELSE IF tag = "fixed" /\ a = 23 THEN BesCount(BesVs, <<>>)
   ELSE IF tag = "fixed" /\ a = 24 THEN BesCount(BesVsPos, <<>>)
   ELSE IF tag = "fixed" /\ a = 25 THEN BesCount(BesVsGe1, LogBesRecBig)
+  ELSE IF tag = "fixed" /\ a \in {31, 32} THEN NegCount
   ELSE Len(PointList(tag, a))
 PointAt(tag, a, k) ==
   IF IsGAll(tag, a) \/ IsGSmall(tag, a) THEN GPointAt(k)
   ELSE IF tag = "fixed" /\ a = 23 THEN BesPointAt(BesVs, <<>>, k)
   ELSE IF tag = "fixed" /\ a = 24 THEN BesPointAt(BesVsPos, <<>>, k)
   ELSE IF tag = "fixed" /\ a = 25 THEN BesPointAt(BesVsGe1, LogBesRecBig, k)
+  ELSE IF tag = "fixed" /\ a \in {31, 32} THEN NegPointAt(k)
   ELSE PointList(tag, a)[k]
 
 =============================================================================
